@@ -94,3 +94,9 @@ Lemma tie_control :
   gen_prune_filters = ["is_file"; "prefix"; "suffix"; "date"; "remove"] /\
   gen_refresh_order = ["join_date"; "prune"; "create"; "swap"].
 Proof. repeat split; reflexivity. Qed.
+
+(** make_writer as it is in the source re-checks next_date under the write lock (is_latest_rotation) before
+    refresh_writer: the variant of the model for which C16_lands_in_period_shared holds on every schedule.
+    The driver passes this flag to the model on every run; a source without the re-check breaks this lemma. *)
+Lemma tie_recheck : gen_recheck = true.
+Proof. reflexivity. Qed.
